@@ -3,6 +3,14 @@
 Necessary structural clause: every piece of state the time-stepping loop carries from one iteration to the next is either kept in
 the model (plain picklable attributes) or re-derived from the model when a new simulator starts; nothing loop-carried is reset to a
 constant on a continued run.
+
+Techniques (DESIGN 2b): R-C10-1, -1b, -2, -4 are T1 structural (write sets over the self-call closure of the loop, reaching
+definitions, CFG must-pass / dominance, sibling agreement), with these text-level parts: "reads the model" is a substring test for
+self._wn / wn on the unparsed value; R-C10-2 inspects a HARD-CODED list of 18 model / control classes (not derived from the loop's
+write set) and compares __getnewargs__ with __new__ by name prefix; R-C10-4 recognises the status test by its unparsed text and
+compares only the SETS of the other atoms of the two guards.  R-C10-3 is T3: the defining slices of the first-step flag, the clock
+arithmetic and the exit tests are evaluated by sa/peval on a dozen concrete probes (bounded to them), plus two CFG dominance facts.
+R-C10-5 is T3: the prologue slice defining the rule clock is evaluated on 9 (prev_sim_time, rule_timestep) pairs and 8 fresh-run states.
 """
 import ast
 
@@ -20,17 +28,21 @@ CTRL = "wntr/network/controls.py"
 OPTS = "wntr/network/options.py"
 
 EXPLANATION = (
-    "Static state inventory of the restart path: (R-C10-1) the loop-carried attributes of WNTRSimulator -- self.X assigned inside run_sim's "
-    "while loop or in a method called from it -- are enumerated; for each, the definition that reaches the loop when run_sim is entered on a "
-    "continued run (sim_time != 0) must read the model (self._wn): an assignment of a constant / empty container in __init__ or in the "
-    "prologue, not overridden by a model-derived one, loses state on restart (reaching definitions with the first-step guards -- if statement, "
-    "conditional expression, any spelling, any flag name -- partially evaluated for a continued run); loop-carried locals of run_sim must be derived "
-    "from the model (followed through temporaries), hold their initial constant at every time advance, or be re-assigned before use; "
-    "(R-C10-2) every run-time field the loop writes on the model lives in a class without __slots__/__getstate__/__reduce__, "
-    "ValueCondition.__getnewargs__ agrees with __new__, and the prologue overwrites model-side run-time state only under the first_step guard; "
-    "(R-C10-3) the first-step flag is true exactly when `sim_time == 0`, the loop leaves only after sim_time was advanced past the duration, and "
-    "the advance returns to the hydraulic grid, so a continued run starts at the next grid time -- decided by evaluating the defining slice of the "
-    "flag / the clock arithmetic of one iteration / the exit conditions on a finite set of clocks, timesteps and durations, not by matching text. "
+    "Static state inventory of the restart path. R-C10-1 (structural, T1: write sets over the methods the loop calls + reaching definitions; "
+    "first-step guards resolved by evaluating the test on 3 states): for each self.X assigned inside run_sim's while loop or a method called from "
+    "it, the definition reaching the loop on a continued run (sim_time != 0) must mention the model (substring test self._wn / wn), not be a "
+    "constant / empty container. R-C10-1b (T1: CFG must-pass / dominators, def-use): each loop-carried local of run_sim is model-derived, holds "
+    "its initial constant at every time advance, or is re-assigned before use. R-C10-2 (T1, AST presence/absence): 18 LISTED model and control "
+    "classes (a fixed list, not derived from what the loop writes) define no __slots__/__getstate__/__reduce__/__copy__ hooks; "
+    "ValueCondition.__getnewargs__ names match __new__'s parameters by prefix; prologue stores and the two prologue calls touching model state sit "
+    "under the first-step guard. R-C10-3 (T3, finite evaluation of the defining slices by sa/peval on 7 clocks and 12 (clock, step, duration) "
+    "triples -- bounded to these probes; plus T1 dominance): the first-step flag is true exactly when sim_time == 0, each clock exit is taken iff "
+    "sim_time > duration, the advance lands on the hydraulic grid, the normal exit is dominated by an advance and every advance by a call of "
+    "update_network_previous_values. R-C10-4 (T1 sibling agreement; status test found by its text): _initialize_internal_graph and "
+    "_update_internal_graph guard a link's connectivity bit with the same set of non-status atoms. R-C10-5 (T3, finite evaluation by sa/peval of "
+    "the prologue slice that defines the rule clock -- the simulator attribute the loop multiplies with rule_timestep -- on 9 (prev_sim_time, "
+    "rule_timestep) pairs on and off the rule grid, bounded to them): on a continued run clock * rule_timestep is the smallest rule instant strictly "
+    "after the last accepted solution (clock == prev_sim_time // rule_timestep + 1), on a fresh run the clock is 1. "
     "Decides this inventory, not numerical equality of the results.")
 RULE_TEXT = ("one instance = one loop-carried simulator attribute / local, one model class carrying run-time state, one prologue store, "
              "one exit path; distinct = distinct constructs")
@@ -40,6 +52,11 @@ ASSUMPTIONS = [
     "R-C10-3 evaluates the clock arithmetic written in run_sim itself (assignments, with their if-structure); clock changes made inside callees of the loop "
     "(_compute_next_timestep_and_run_presolve_controls_and_rules backtracking to a control time) happen before the advance and are not part of it",
     "the flag, clock and exit semantics are checked on finitely many probe values (clocks 0, 0.0, 1, 3600, -1, 86400; whole and partial steps; durations on and off the grid)",
+    "R-C10-2's class list is written in the module; a class added to the model that carries run-time state is not noticed",
+    "R-C10-3 checks that update_network_previous_values dominates every advance; that nothing else stores results or changes state between the advance and the exit test is not decided",
+    "R-C10-4 compares the sets of atoms (unparsed text) of the two guards, not their truth tables",
+    "R-C10-5 decides the value the prologue stores into the rule clock on the probed (prev_sim_time, rule_timestep) pairs (integers; sim_time = prev_sim_time + 3600 on "
+    "the continued path); that wn._prev_sim_time is the time of the last accepted solution is the contract of update_network_previous_values and is not re-decided here",
 ]
 
 INVARIANT = {
@@ -135,12 +152,14 @@ def is_constant_value(v):
 FREE_PROBES = (None, 0, -1, 3600)
 
 
-def _machine(sim_time, duration=36000, hyd=3600, free=None, env=None):
+def _machine(sim_time, duration=36000, hyd=3600, free=None, env=None, time_attrs=None, wn_attrs=None):
     """evaluator over an abstract simulator: self._wn.sim_time, self._wn.options.time.duration/hydraulic_timestep, self._hydraulic_timestep are
     concrete; any other attribute of self / self._wn is a FREE input (value from `free`, default None) and its read is recorded."""
     reads = []
     tm = Obj("wn.options.time", {"duration": duration, "hydraulic_timestep": hyd})
+    tm.attrs.update(time_attrs or {})
     wn = Obj("wn", {"sim_time": sim_time, "options": Obj("wn.options", {"time": tm})})
+    wn.attrs.update(wn_attrs or {})
     me = Obj("self", {"_wn": wn, "_hydraulic_timestep": hyd})
 
     def attr_hook(base, attr):
@@ -154,6 +173,13 @@ def _machine(sim_time, duration=36000, hyd=3600, free=None, env=None):
     def call_hook(name, node, ev):
         if name == "bool" and len(node.args) == 1 and not node.keywords:
             return bool(ev.truth(ev.ev(node.args[0])))
+        if name in ("math.floor", "np.floor", "numpy.floor", "math.ceil", "np.ceil", "numpy.ceil", "math.trunc", "np.trunc", "numpy.trunc") \
+                and len(node.args) == 1 and not node.keywords:
+            import math
+            v = ev.ev(node.args[0])
+            if isinstance(v, (int, float)) and not isinstance(v, bool):
+                r = getattr(math, name.split(".")[1])(v)
+                return r if name.startswith("math.") else float(r)       # numpy returns a float
         return NotImplemented
     e = {"self": me}
     e.update(env or {})
@@ -838,11 +864,67 @@ def run(repo, chk):
         chk.expect(not off, "R-C10-3", "the time advance adds one hydraulic timestep and removes the overstep (returns to the grid after a partial step)",
                    loc(rs, g.node_ast(adv[0])) if adv else loc(rs), expected="sim_time' = (sim_time + h) - (sim_time + h) % h",
                    found=["(sim_time,h,duration)=%r -> %r" % o for o in off[:4]] or None)
-        # and nothing between the advance and the exit test stores results or changes state again
+        # and a call of update_network_previous_values dominates every advance (only this dominance is checked; that nothing between the
+        # advance and the exit test stores results or changes state again is NOT decided)
         upv = [u for u in g.calling("update_network_previous_values") if in_loop(u)]
         chk.expect(bool(upv) and bool(adv) and all(any(g.dominates(u, a_, idom) for u in upv) for a_ in adv), "R-C10-3",
                    "the accepted state is recorded (update_network_previous_values) before every time advance", loc(rs))
     chk.floor("R-C10-3", 4)
+
+    # ------------------------------------------------------------ R-C10-5 the rule clock of a continued run
+    # R-C10-1 only decides that the rule clock is re-derived from the model; WHICH value matters: rules are evaluated at the instants
+    # clock * rule_timestep, the uninterrupted run has evaluated them at every instant <= the last accepted solution (prev_sim_time) BEFORE that
+    # solution, so a continued run must resume at the first rule instant STRICTLY AFTER prev_sim_time (resuming AT it re-evaluates the rules with
+    # the solution of the pause instant, which the uninterrupted run never does; resuming later skips an instant).
+    # The clock attribute is identified by its role: the simulator attribute the loop multiplies with the rule timestep.
+    clocks = set()
+    for m in sorted(loop_methods):
+        for n in walk(meths[m]):
+            if isinstance(n, ast.BinOp) and isinstance(n.op, ast.Mult):
+                for a_, b_ in ((n.left, n.right), (n.right, n.left)):
+                    for x in ast.walk(a_):
+                        if isinstance(x, ast.Attribute) and isinstance(x.value, ast.Name) and x.value.id == "self" and (dotted(b_) or "").endswith("rule_timestep"):
+                            clocks.add(x.attr)
+    clocks = {c for c in clocks if c in carried}
+    if len(clocks) != 1:
+        raise ExtractError("rule clock of the time loop not identified (simulator attributes multiplied with rule_timestep and advanced by the loop: %s)" % sorted(clocks))
+    clock = sorted(clocks)[0]
+    csl, _w = backward_slice(prologue, {"self." + clock})
+    c5 = "a continued run resumes rule evaluation at the first rule instant strictly after the last accepted solution (self.%s)" % clock
+    c5f = "a fresh run starts rule evaluation at the first positive rule instant (self.%s == 1)" % clock
+    if not csl:
+        chk.bad("R-C10-5", c5, loc(rs), "run_sim assigns no value to the rule clock self.%s before the loop" % clock)
+    else:
+        def clock_after(sim_time, prev, rt):
+            ev, wn, reads = _machine(sim_time, time_attrs={"rule_timestep": rt}, wn_attrs={"_prev_sim_time": prev})
+            try:
+                ev.run(csl)
+            except Raised as e:
+                raise ExtractError("the definition of self.%s raises on (sim_time=%r, prev_sim_time=%r, rule_timestep=%r)" % (clock, sim_time, prev, rt))
+            return ev.env["self"].attrs.get(clock)
+        RPROBES = [(3600, 600), (3700, 600), (4199, 600), (4200, 600), (599, 600), (600, 600), (7200, 360), (7300, 360), (0, 600)]
+        site = [n for n in walk(ast.Module(body=csl, type_ignores=[])) if isinstance(n, (ast.Assign, ast.AnnAssign)) and any(dotted(t) == "self." + clock for t in _flat_targets(n))]
+        where = loc(rs, site[-1] if site else csl[0])
+        off = []
+        for prev, rt in RPROBES:
+            v = clock_after(prev + 3600, prev, rt)
+            want = prev // rt + 1
+            if not (isinstance(v, (int, float)) and not isinstance(v, bool) and v == want):
+                off.append("prev_sim_time=%r rule_timestep=%r -> clock %r, i.e. next rule instant %s (expected clock %r, instant %r)" % (
+                    prev, rt, v, v * rt if isinstance(v, (int, float)) else "?", want, want * rt))
+        chk.expect(not off, "R-C10-5", c5, where,
+                   "the value stored into the rule clock on the not-first-step path of run_sim's prologue, evaluated on %d (prev_sim_time, rule_timestep) pairs on and "
+                   "off the rule grid: clock * rule_timestep must be the smallest multiple of the rule timestep that is > prev_sim_time" % len(RPROBES),
+                   expected="clock == floor(prev_sim_time / rule_timestep) + 1", found=off[:4] or None)
+        off = []
+        for prev in (None, -1, 0, 3600):
+            for rt in (600, 360):
+                v = clock_after(0, prev, rt)
+                if not (isinstance(v, (int, float)) and not isinstance(v, bool) and v == 1):
+                    off.append("sim_time=0 prev_sim_time=%r rule_timestep=%r -> clock %r" % (prev, rt, v))
+        chk.expect(not off, "R-C10-5", c5f, where, "rules are evaluated at the positive multiples of the rule timestep, not before the first hydraulic solution",
+                   expected="clock == 1", found=off[:4] or None)
+    chk.floor("R-C10-5", 2)
 
 
 _FS_OLD = "        if self._wn.sim_time == 0:\n            first_step = True\n        else:\n            first_step = False\n"
@@ -882,7 +964,19 @@ WITNESSES = [
     dict(name="quiet-loop-condition-instead-of-head-break", file=CORE,
          old="            if not resolve and self._wn.sim_time > self._wn.options.time.duration:\n                # a continued run of a model that was paused at (or after) its duration has no step left to solve\n                break\n\n",
          new="            if (not resolve) and not (self._wn.sim_time <= self._wn.options.time.duration):\n                break\n\n", silent=True),
+    dict(name="rule-clock-resumes-at-the-pause-instant", file=CORE, old="            self._rule_iter = int(self._wn._prev_sim_time // self._wn.options.time.rule_timestep) + 1\n",
+         new="            self._rule_iter = int(np.ceil(self._wn._prev_sim_time / self._wn.options.time.rule_timestep))\n", rule="R-C10-5"),
+    dict(name="rule-clock-skips-an-instant", file=CORE, old="            self._rule_iter = int(self._wn._prev_sim_time // self._wn.options.time.rule_timestep) + 1\n",
+         new="            self._rule_iter = int(self._wn._prev_sim_time // self._wn.options.time.rule_timestep) + 2\n", rule="R-C10-5"),
+    dict(name="rule-clock-of-a-fresh-run-at-zero", file=CORE, old="        if first_step:\n            self._rule_iter = 1\n", new="        if first_step:\n            self._rule_iter = 0\n", rule="R-C10-5"),
     # ---- behaviour-preserving spellings that must stay quiet
+    dict(name="quiet-rule-clock-int-of-quotient", file=CORE, old="            self._rule_iter = int(self._wn._prev_sim_time // self._wn.options.time.rule_timestep) + 1\n",
+         new="            self._rule_iter = int(self._wn._prev_sim_time / self._wn.options.time.rule_timestep) + 1\n", silent=True),
+    dict(name="quiet-rule-clock-math-floor-hoisted", file=CORE, old="            self._rule_iter = int(self._wn._prev_sim_time // self._wn.options.time.rule_timestep) + 1\n",
+         new="            rule_dt = self._wn.options.time.rule_timestep\n            done = math.floor(self._wn._prev_sim_time / rule_dt)\n            self._rule_iter = done + 1\n",
+         also=[("\nimport numpy as np\n", "\nimport math\nimport numpy as np\n")], silent=True),
+    dict(name="quiet-rule-clock-np-floor-conditional-expression", file=CORE, old=_RI_OLD,
+         new="        self._rule_iter = 1 if first_step else int(np.floor(self._wn._prev_sim_time / self._wn.options.time.rule_timestep)) + 1\n", silent=True),
     dict(name="quiet-first-step-bool-expression", file=CORE, old=_FS_OLD, new="        first_step = bool(self._wn.sim_time == 0)\n", silent=True),
     dict(name="quiet-first-step-hoisted-clock-and-negation", file=CORE, old=_FS_OLD, new="        now = self._wn.sim_time\n        continued = now != 0\n        first_step = not continued\n", silent=True),
     dict(name="quiet-first-step-conditional-expression", file=CORE, old=_FS_OLD, new="        first_step = False if self._wn.sim_time else True\n", silent=True),
